@@ -251,6 +251,27 @@ def scanTemplate : Nat → List Char → List Piece
       | _ => .text c :: scanTemplate fuel rest
     else .text c :: scanTemplate fuel rest
 
+/-- The slice entries as the solver passes them to `slice_value`, the format as it is put into
+    `"{0" + fmt + "}"`. -/
+abbrev HoleFn := List Char → Option (List (Option Nat × Option Nat)) → Option (List Char) → Option (List Char)
+
+/-- `TemplateSolver.solve`, output side: copied characters and, for every hole, the characters of
+    `("{0"+fmt+"}").format(v)` / `str(v)` where `v` is the requested node's (sliced) value — the
+    parameter `hole` (`none` = the request, the slicing or the formatting raises, which ends the
+    solve with that exception, as does the `IndexError` piece). -/
+def assemble (hole : HoleFn) : List Piece → Option (List Char)
+  | [] => some []
+  | .text c :: r => (assemble hole r).map (c :: ·)
+  | .hole p sl fm :: r =>
+    match hole p sl fm with
+    | some s => (assemble hole r).map (s ++ ·)
+    | none => none
+  | .raise :: _ => none
+
+/-- The whole `TemplateSolver.solve(text)`: scan, then assemble. -/
+def solveTemplate (hole : HoleFn) (text : List Char) : Option (List Char) :=
+  assemble hole (scanTemplate (text.length + 1) text)
+
 /-! ### renderers (specification side): blanks around binary operators mandatory, extra optional -/
 
 def blanks (n : Nat) : List Char := List.replicate n ' '
